@@ -230,6 +230,7 @@ CLAIMED = {
              "no-op; the empty topic matches everything; get_all_topics lists exactly the active topics once. 10 theorems. Partial with "
              "respect to the whole property: filter-on-first-frame glue, per-publisher ordering (C01/C08) and the non-blocking publisher are "
              "not yet covered by theorems here; concurrent match-while-modify only at lock granularity.",
+        text_extra=" KNOWN FINDING C12:pub-blocks-on-stalled-subscriber (the publisher is blocked by a subscriber that stops reading once SNDHWM is reached; a pinned stress test relies on that back-pressure), witnessed by the `pubstall` scenario on every run.",
         note=COMMON_NOTE + "HashMap iteration order is canonicalised (sorted) before comparison.",
         design="§8 C12"),
     "C13": dict(
@@ -296,8 +297,8 @@ CLAIMED = {
              "state and emits the same handshake outcome, deliveries in order and errors; the pool's bookkeeping stays consistent under every "
              "history (including double and unknown releases), never hands out a buffer that is in use, gets every buffer back once all are "
              "released, a lease dropped before hand-over returns its buffer by itself, oversize data never takes a buffer. 7 theorems. KNOWN "
-             "FINDING C20:uring-more-than-8-connections (a 9th simultaneous connection of a socket is never attached; Tokio serves it), "
-             "replayed on every run. Partial: the receive ring, the worker's SQE/CQE state machine, descriptor handling and the spill-over "
+             "FINDINGS C20:uring-more-than-8-connections (a 9th simultaneous connection of a socket is never attached; Tokio serves it) and "
+             "C20:uring-no-timers (no handshake deadline, no heartbeat tick in the io_uring handler), both replayed on every run. Partial: the receive ring, the worker's SQE/CQE state machine, descriptor handling and the spill-over "
              "queue are covered by the equivalence scenarios only.",
         note=COMMON_NOTE + "io_uring is a per-process singleton: each backend configuration is a separate harness process.",
         design="§8 C20"),
@@ -344,7 +345,7 @@ def main():
                 "evidence_file": "/verif/evidence/%s.json" % pid,
                 "replay_cmd_template": "./check %s --replay {path}" % pid,
                 "engine": c["engine"],
-                "level_claimed": {"category": "proof", "text": c["text"], "design_ref": c["design"]},
+                "level_claimed": {"category": "proof", "text": c["text"] + c.get("text_extra", ""), "design_ref": c["design"]},
                 "level_note": c["note"],
                 "technique": c["technique"],
             })
